@@ -98,7 +98,11 @@ func c10Messages() []c10Msg {
 			for i := range all {
 				all[i] = i != 4
 			}
-			s.NotifyAsync("workspace/didChangeConfiguration", c17Settings(all))
+			// the change also flips a plain setting (references no longer include the definition: the key is omitted) and
+			// one that needs the project to be rebuilt (b.lua becomes an ignored file)
+			st := c17Settings(all)
+			st["settings"].(map[string]interface{})["luahelper"].(map[string]interface{})["base"] = map[string]interface{}{"IgnoreFileOrDir": []string{"b.lua"}}
+			s.NotifyAsync("workspace/didChangeConfiguration", st)
 			return ""
 		}},
 	}
@@ -137,6 +141,16 @@ func c10Scenarios(tier string) []c10Scenario {
 	for i, a := range reqs {
 		for _, b := range reqs[i+1:] {
 			out = append(out, c10Scenario{[]int{a, b}})
+		}
+	}
+	// a request followed by two notifications (it may be admitted before the first and get the lock after the second)
+	name2idx := map[string]int{}
+	for i, m := range ms {
+		name2idx[m.name] = i
+	}
+	for _, r := range []string{"references", "hover", "definition", "completion"} {
+		for _, np := range [][2]string{{"didChangeConfiguration", "didChange"}, {"didChange", "didSave"}, {"didChange", "didChangeConfiguration"}} {
+			out = append(out, c10Scenario{[]int{name2idx[r], name2idx[np[0]], name2idx[np[1]]}})
 		}
 	}
 	if tier == "thorough" {
